@@ -930,6 +930,13 @@ func (t *trans) call(c *ast.CallExpr) string {
 			t.useNow = true
 			return "env.timeNow"
 		case "fmt.Sprintf":
+			// a fresh identifier "id-%x" of random bytes: one unknown of the range
+			if len(c.Args) == 2 && strings.HasPrefix(t.src(c.Args[1]), "randomBytes(") {
+				if bl, ok := c.Args[0].(*ast.BasicLit); ok && bl.Value == `"id-%x"` {
+					t.addExtern("freshID", "String")
+					return "env.freshID"
+				}
+			}
 			// a literal format whose verbs are all %s, with string arguments: the concatenation
 			if tv, ok := t.info.Types[c.Args[0]]; ok && tv.Value != nil && tv.Value.Kind() == constant.String {
 				parts := strings.Split(constant.StringVal(tv.Value), "%s")
@@ -2400,6 +2407,7 @@ func translate(repo string, p *pkgFiles, outPath string) {
 		{fn: "ValidateLogoutResponseRedirect", recv: "ServiceProvider", as: "logoutRedirectTail", anchor: "if err := sp.validateSignature(doc.Root()); err != nil {"},
 		{fn: "MakeAssertion", recv: "DefaultAssertionMaker", as: "conditionsNotBefore", anchor: "notBefore := req.Now.Add(-1 * MaxClockSkew)", until: "nameIDFormat :=", yield: "notBefore", yieldTy: "Int"},
 		{fn: "MakeAssertion", recv: "DefaultAssertionMaker", as: "conditionsNotOnOrAfter", anchor: "notBefore := req.Now.Add(-1 * MaxClockSkew)", until: "nameIDFormat :=", yield: "notOnOrAfterAfter", yieldTy: "Int"},
+		{fn: "MakeResponse", recv: "IdpAuthnRequest", as: "responseHeader", anchor: "response := &Response{", until: "responseEl := response.Element()", yield: "response", yieldTy: "(Option Response)"},
 		{fn: "GetSSOBindingLocation", recv: "ServiceProvider"},
 		{fn: "GetSLOBindingLocation", recv: "ServiceProvider"},
 		{fn: "ServeIDPInitiated", recv: "IdentityProvider", as: "idpInitiatedGate", state: "req", trace: true,
